@@ -125,239 +125,245 @@ def run(ck):
                  "modulo is stored and before super().__init__; _mod is written only there",
                  'M0', 3)
 
-    # ---- R20.1: reducing setters
-    reducing = {}       # method name -> FuncInfo
-    for name, fi in sorted(counter.methods.items()):
-        cfg = ck.cfg(fi.fid)
-        sites = nodes_calling(cfg, 'set_output')
-        for n in sites:
-            for c in node_calls(n, 'set_output'):
-                if not (isinstance(c.func, ast.Attribute) and recv(c) == 'self'):
-                    ck.ob(R1d, f"{fi.fid} :: {norm1(n.ast)}", False,
-                          f"set_output is called on `{recv(c)}`, not through self "
-                          f"(bypasses the class's own setter chain)", fi, n.ast)
+    with ck.section('R20.1'):
+        # ---- R20.1: reducing setters
+        reducing = {}       # method name -> FuncInfo
+        for name, fi in sorted(counter.methods.items()):
+            cfg = ck.cfg(fi.fid)
+            sites = nodes_calling(cfg, 'set_output')
+            for n in sites:
+                for c in node_calls(n, 'set_output'):
+                    if not (isinstance(c.func, ast.Attribute) and recv(c) == 'self'):
+                        ck.ob(R1d, f"{fi.fid} :: {norm1(n.ast)}", False,
+                              f"set_output is called on `{recv(c)}`, not through self "
+                              f"(bypasses the class's own setter chain)", fi, n.ast)
+                        continue
+                    ck.need(R1, len(c.args) == 1 and not c.keywords,
+                            f"unrecognised set_output call shape in {fi.fid}: {norm(c)}")
+                    ok, why = _arg_is_reduced(ck, fi, cfg, n, c.args[0])
+                    if not ok:
+                        ok2, why2 = _reduced_by_abstract_run(ck, R1, fi)
+                        if ok2:
+                            ok, why = True, why2
+                    ck.ob(R1, f"{fi.fid} :: {norm1(n.ast)}", ok, why, fi, n.ast)
+                    if ok:
+                        reducing[name] = fi
+                        # R20.1b: returns the same value
+                        rets = return_nodes(cfg)
+                        good = bool(rets) and all(
+                            r.ast.value is not None and norm(r.ast.value) == norm(c.args[0])
+                            for r in rets)
+                        path = must_pass(cfg, cfg.entry, rets, [cfg.exit])
+                        ck.ob(R1b, fi.fid, good and path is None,
+                              (f"returns `{norm(c.args[0])}`, the value passed to set_output"
+                               if good and path is None else
+                               f"{fi.fid} does not return the stored value `{norm(c.args[0])}` "
+                               f"on every path (returns: "
+                               f"{[norm(r.ast.value) for r in rets] or 'implicit None'})"),
+                              fi, fi.node, witness=path_witness(cfg, path))
+        ck.need(R1, reducing, "no reducing setter (a Counter method passing `x % self._mod` to "
+                "set_output) found")
+
+    with ck.section('R20.1d'):
+        # ---- R20.1d: no direct writes of _output
+        n_direct = 0
+        for name, fi in sorted(counter.methods.items()):
+            cfg = ck.cfg(fi.fid)
+            for n in nodes_writing_attr(cfg, '_output', base=None):
+                n_direct += 1
+                ck.ob(R1d, f"{fi.fid} :: {norm1(n.ast)}", False,
+                      "Counter writes _output directly (no modulo reduction, no change notification)",
+                      fi, n.ast)
+        ck.ob(R1d, COUNTER, n_direct == 0, f"{len(counter.methods)} methods scanned, "
+              f"{n_direct} direct writes of _output", None, f"{counter.module.path}:{counter.node.lineno}")
+
+    with ck.section('R20.1c'):
+        # ---- R20.1c: aliases
+        def routes_to_reducing(fi, depth=0) -> tuple[bool, str]:
+            if fi is None:
+                return False, "not defined"
+            if prog.is_dummy(fi):
+                return False, "resolves to the dummy placeholder"
+            if fi.cls is not counter and fi.name not in ('event',):
+                # inherited from a base: only acceptable if it routes through self.event(...)
+                pass
+            if fi.name in reducing and fi is reducing[fi.name]:
+                return True, f"is the reducing setter {fi.fid}"
+            if depth > 3:
+                return False, "call chain too deep"
+            cfg = ck.cfg(fi.fid)
+            if nodes_calling(cfg, 'set_output') or nodes_writing_attr(cfg, '_output', None):
+                return False, f"{fi.fid} sets the output itself without the reduction"
+            cands = []
+            for n in nodes_where(cfg, lambda n: True):
+                for c in node_calls(n):
+                    if isinstance(c.func, ast.Attribute) and recv(c) == 'self':
+                        if c.func.attr in reducing:
+                            cands.append(n)
+                        elif c.func.attr == 'event':
+                            cands.append(n)
+            if cands and must_pass(cfg, cfg.entry, cands, [cfg.exit]) is None:
+                return True, f"{fi.fid} reaches the output only through a reducing setter / event()"
+            return False, f"{fi.fid} does not route the value through a reducing setter on all paths"
+
+        for hook in ('init_from_value', '_restore_state'):
+            target = prog.resolve_method(counter, hook)
+            ok, why = routes_to_reducing(target)
+            ck.ob(R1c, f"{COUNTER}.{hook}", ok, f"{hook} -> {why}", target,
+                  target.node if target is not None else None)
+
+    with ck.section('R20.2'):
+        # ---- R20.2: handlers
+        expect = {
+            '_event_inc': ('binop', ast.Add),
+            '_event_dec': ('binop', ast.Sub),
+            '_event_put': ('param', 'value'),
+            '_event_reset': ('expr', 'self.initdef'),
+        }
+        for hname, (kind, want) in expect.items():
+            fi = counter.methods.get(hname)
+            ck.need(R2, fi is not None, f"handler {COUNTER}.{hname} not found")
+            cfg = ck.cfg(fi.fid)
+            rets = return_nodes(cfg)
+            implicit = must_pass(cfg, cfg.entry, rets, [cfg.exit])
+            problems = []
+            if implicit is not None:
+                problems.append("a path ends without `return` (the event would return None)")
+            for r in rets:
+                v = r.ast.value
+                call = v
+                if isinstance(v, ast.Name):
+                    vals = ck.rdefs(fi.fid).value_exprs(r, v.id)
+                    call = vals[0] if len(vals) == 1 and not isinstance(vals[0], str) else v
+                if not (isinstance(call, ast.Call) and isinstance(call.func, ast.Attribute)
+                        and recv(call) == 'self' and call.func.attr in reducing
+                        and len(call.args) == 1):
+                    problems.append(f"`{norm1(r.ast)}` does not return the reducing setter's result")
                     continue
-                ck.need(R1, len(c.args) == 1 and not c.keywords,
-                        f"unrecognised set_output call shape in {fi.fid}: {norm(c)}")
-                ok, why = _arg_is_reduced(ck, fi, cfg, n, c.args[0])
-                if not ok:
-                    ok2, why2 = _reduced_by_abstract_run(ck, R1, fi)
-                    if ok2:
-                        ok, why = True, why2
-                ck.ob(R1, f"{fi.fid} :: {norm1(n.ast)}", ok, why, fi, n.ast)
-                if ok:
-                    reducing[name] = fi
-                    # R20.1b: returns the same value
-                    rets = return_nodes(cfg)
-                    good = bool(rets) and all(
-                        r.ast.value is not None and norm(r.ast.value) == norm(c.args[0])
-                        for r in rets)
-                    path = must_pass(cfg, cfg.entry, rets, [cfg.exit])
-                    ck.ob(R1b, fi.fid, good and path is None,
-                          (f"returns `{norm(c.args[0])}`, the value passed to set_output"
-                           if good and path is None else
-                           f"{fi.fid} does not return the stored value `{norm(c.args[0])}` "
-                           f"on every path (returns: "
-                           f"{[norm(r.ast.value) for r in rets] or 'implicit None'})"),
-                          fi, fi.node, witness=path_witness(cfg, path))
-    ck.need(R1, reducing, "no reducing setter (a Counter method passing `x % self._mod` to "
-            "set_output) found")
-
-    # ---- R20.1d: no direct writes of _output
-    n_direct = 0
-    for name, fi in sorted(counter.methods.items()):
-        cfg = ck.cfg(fi.fid)
-        for n in nodes_writing_attr(cfg, '_output', base=None):
-            n_direct += 1
-            ck.ob(R1d, f"{fi.fid} :: {norm1(n.ast)}", False,
-                  "Counter writes _output directly (no modulo reduction, no change notification)",
-                  fi, n.ast)
-    ck.ob(R1d, COUNTER, n_direct == 0, f"{len(counter.methods)} methods scanned, "
-          f"{n_direct} direct writes of _output", None, f"{counter.module.path}:{counter.node.lineno}")
-
-    # ---- R20.1c: aliases
-    def routes_to_reducing(fi, depth=0) -> tuple[bool, str]:
-        if fi is None:
-            return False, "not defined"
-        if prog.is_dummy(fi):
-            return False, "resolves to the dummy placeholder"
-        if fi.cls is not counter and fi.name not in ('event',):
-            # inherited from a base: only acceptable if it routes through self.event(...)
-            pass
-        if fi.name in reducing and fi is reducing[fi.name]:
-            return True, f"is the reducing setter {fi.fid}"
-        if depth > 3:
-            return False, "call chain too deep"
-        cfg = ck.cfg(fi.fid)
-        if nodes_calling(cfg, 'set_output') or nodes_writing_attr(cfg, '_output', None):
-            return False, f"{fi.fid} sets the output itself without the reduction"
-        cands = []
-        for n in nodes_where(cfg, lambda n: True):
-            for c in node_calls(n):
-                if isinstance(c.func, ast.Attribute) and recv(c) == 'self':
-                    if c.func.attr in reducing:
-                        cands.append(n)
-                    elif c.func.attr == 'event':
-                        cands.append(n)
-        if cands and must_pass(cfg, cfg.entry, cands, [cfg.exit]) is None:
-            return True, f"{fi.fid} reaches the output only through a reducing setter / event()"
-        return False, f"{fi.fid} does not route the value through a reducing setter on all paths"
-
-    for hook in ('init_from_value', '_restore_state'):
-        target = prog.resolve_method(counter, hook)
-        ok, why = routes_to_reducing(target)
-        ck.ob(R1c, f"{COUNTER}.{hook}", ok, f"{hook} -> {why}", target,
-              target.node if target is not None else None)
-
-    # ---- R20.2: handlers
-    expect = {
-        '_event_inc': ('binop', ast.Add),
-        '_event_dec': ('binop', ast.Sub),
-        '_event_put': ('param', 'value'),
-        '_event_reset': ('expr', 'self.initdef'),
-    }
-    for hname, (kind, want) in expect.items():
-        fi = counter.methods.get(hname)
-        ck.need(R2, fi is not None, f"handler {COUNTER}.{hname} not found")
-        cfg = ck.cfg(fi.fid)
-        rets = return_nodes(cfg)
-        implicit = must_pass(cfg, cfg.entry, rets, [cfg.exit])
-        problems = []
-        if implicit is not None:
-            problems.append("a path ends without `return` (the event would return None)")
-        for r in rets:
-            v = r.ast.value
-            call = v
-            if isinstance(v, ast.Name):
-                vals = ck.rdefs(fi.fid).value_exprs(r, v.id)
-                call = vals[0] if len(vals) == 1 and not isinstance(vals[0], str) else v
-            if not (isinstance(call, ast.Call) and isinstance(call.func, ast.Attribute)
-                    and recv(call) == 'self' and call.func.attr in reducing
-                    and len(call.args) == 1):
-                problems.append(f"`{norm1(r.ast)}` does not return the reducing setter's result")
-                continue
-            arg = call.args[0]
-            if kind == 'binop':
-                other = ast.Sub if want is ast.Add else ast.Add
-                if not (isinstance(arg, ast.BinOp) and isinstance(arg.op, want)):
-                    problems.append(
-                        f"operand `{norm(arg)}` does not combine output and amount with "
-                        f"{'+' if want is ast.Add else '-'}"
-                        + (" (uses the opposite operator)" if isinstance(arg, ast.BinOp)
-                           and isinstance(arg.op, other) else ""))
-                else:
-                    l, rr = norm(arg.left), norm(arg.right)
-                    outs = ('self._output', 'self.output')
-                    if want is ast.Add:
-                        good = (l in outs and rr == 'amount') or (rr in outs and l == 'amount')
+                arg = call.args[0]
+                if kind == 'binop':
+                    other = ast.Sub if want is ast.Add else ast.Add
+                    if not (isinstance(arg, ast.BinOp) and isinstance(arg.op, want)):
+                        problems.append(
+                            f"operand `{norm(arg)}` does not combine output and amount with "
+                            f"{'+' if want is ast.Add else '-'}"
+                            + (" (uses the opposite operator)" if isinstance(arg, ast.BinOp)
+                               and isinstance(arg.op, other) else ""))
                     else:
-                        good = l in outs and rr == 'amount'
-                    if not good:
-                        problems.append(f"operand `{norm(arg)}` is not <current output> "
-                                        f"{'+' if want is ast.Add else '-'} amount")
-            elif kind == 'param':
-                if norm(arg) != want:
-                    problems.append(f"operand `{norm(arg)}` is not the event's `{want}` item")
-            else:
-                if norm(arg) != want:
-                    problems.append(f"operand `{norm(arg)}` is not `{want}`")
-        ck.ob(R2, fi.fid, not problems,
-              "returns the reducing setter's result for the documented operand on all paths"
-              if not problems else '; '.join(problems), fi, fi.node,
-              witness=path_witness(cfg, implicit))
+                        l, rr = norm(arg.left), norm(arg.right)
+                        outs = ('self._output', 'self.output')
+                        if want is ast.Add:
+                            good = (l in outs and rr == 'amount') or (rr in outs and l == 'amount')
+                        else:
+                            good = l in outs and rr == 'amount'
+                        if not good:
+                            problems.append(f"operand `{norm(arg)}` is not <current output> "
+                                            f"{'+' if want is ast.Add else '-'} amount")
+                elif kind == 'param':
+                    if norm(arg) != want:
+                        problems.append(f"operand `{norm(arg)}` is not the event's `{want}` item")
+                else:
+                    if norm(arg) != want:
+                        problems.append(f"operand `{norm(arg)}` is not `{want}`")
+            ck.ob(R2, fi.fid, not problems,
+                  "returns the reducing setter's result for the documented operand on all paths"
+                  if not problems else '; '.join(problems), fi, fi.node,
+                  witness=path_witness(cfg, implicit))
 
-    # ---- R20.3: signatures
-    def kwonly(fi, name):
-        a = fi.node.args
-        for arg, default in zip(a.kwonlyargs, a.kw_defaults):
-            if arg.arg == name:
-                return True, default
-        return False, None
+    with ck.section('R20.3'):
+        # ---- R20.3: signatures
+        def kwonly(fi, name):
+            a = fi.node.args
+            for arg, default in zip(a.kwonlyargs, a.kw_defaults):
+                if arg.arg == name:
+                    return True, default
+            return False, None
 
-    for hname in ('_event_inc', '_event_dec'):
-        fi = counter.methods[hname]
-        present, default = kwonly(fi, 'amount')
-        ok = present and isinstance(default, ast.Constant) and default.value == 1 \
-            and not isinstance(default.value, bool)
-        ck.ob(R3, f"{fi.fid}(amount)", ok,
-              "amount is keyword-only with default 1" if ok else
-              f"amount must be keyword-only with default 1 "
+        for hname in ('_event_inc', '_event_dec'):
+            fi = counter.methods[hname]
+            present, default = kwonly(fi, 'amount')
+            ok = present and isinstance(default, ast.Constant) and default.value == 1 \
+                and not isinstance(default.value, bool)
+            ck.ob(R3, f"{fi.fid}(amount)", ok,
+                  "amount is keyword-only with default 1" if ok else
+                  f"amount must be keyword-only with default 1 "
+                  f"(found: present={present}, default={norm(default) if default is not None else None})",
+                  fi, fi.node)
+        fi = counter.methods['_event_put']
+        present, default = kwonly(fi, 'value')
+        ok = present and default is None
+        ck.ob(R3, f"{fi.fid}(value)", ok,
+              "value is keyword-only and has no default (a put lacking it fails in the call itself)"
+              if ok else "value must be a required keyword-only parameter of _event_put "
               f"(found: present={present}, default={norm(default) if default is not None else None})",
               fi, fi.node)
-    fi = counter.methods['_event_put']
-    present, default = kwonly(fi, 'value')
-    ok = present and default is None
-    ck.ob(R3, f"{fi.fid}(value)", ok,
-          "value is keyword-only and has no default (a put lacking it fails in the call itself)"
-          if ok else "value must be a required keyword-only parameter of _event_put "
-          f"(found: present={present}, default={norm(default) if default is not None else None})",
-          fi, fi.node)
-    for ci in prog.pkg_classes():
-        for mname, mfi in sorted(ci.methods.items()):
-            if mname.startswith('_event_'):
-                has_kw = mfi.node.args.kwarg is not None
-                ck.ob(R3, f"{mfi.fid}(**data)", has_kw,
-                      "accepts arbitrary data items (**kwargs)" if has_kw else
-                      f"{mfi.fid} does not accept **data: any extra event item (e.g. 'source') "
-                      f"would be reported as a parameter error", mfi, mfi.node)
+        for ci in prog.pkg_classes():
+            for mname, mfi in sorted(ci.methods.items()):
+                if mname.startswith('_event_'):
+                    has_kw = mfi.node.args.kwarg is not None
+                    ck.ob(R3, f"{mfi.fid}(**data)", has_kw,
+                          "accepts arbitrary data items (**kwargs)" if has_kw else
+                          f"{mfi.fid} does not accept **data: any extra event item (e.g. 'source') "
+                          f"would be reported as a parameter error", mfi, mfi.node)
 
-    # ---- R20.4: zero modulo
-    init = counter.methods.get('__init__')
-    ck.need(R4, init is not None, "Counter.__init__ not found")
-    cfg = ck.cfg(init.fid)
-    writes = nodes_writing_attr(cfg, '_mod')
-    ck.need(R4, writes, "Counter.__init__ does not store self._mod")
-    # layout-independent decision: abstract run of the constructor
-    from sa.minieval import MiniEval
-    init_run_ok = None
-    try:
-        bad_ = []
-        a_ = init.node.args
-        for mod_ in (0, 0.0, None, 5, -3, 2.5):
-            order = []
-            env = {'modulo': mod_, 'initdef': 0, '__setattr__': lambda k, v, order=order: order.append(('set', k, v)),
-                   'super().__init__': lambda *aa, order=order, **kk: order.append(('super', kk.get('initdef')))}
-            if a_.vararg:
-                env[a_.vararg.arg] = ()
-            if a_.kwarg:
-                env[a_.kwarg.arg] = {}
-            res = MiniEval(R4, env).run(init.node.body)
-            ck.abstract_cases += 1
-            if mod_ == 0:
-                good = res == ('raise', 'ValueError') and not any(o[0] == 'super' for o in order)
-            else:
-                good = res[0] == 'return' and ('set', 'self._mod', mod_) in order and \
-                    ('super', 0) in order and order.index(('set', 'self._mod', mod_)) < order.index(('super', 0))
-            if not good:
-                bad_.append(f"modulo={mod_!r}: {res}, effects {order}")
-        init_run_ok = not bad_
-        ck.ob(R4, f"{init.fid} :: abstract run", init_run_ok,
-              "a zero modulo raises ValueError before the block is registered; any other modulo "
-              "(None included) is stored before super().__init__ runs" if init_run_ok else "; ".join(bad_),
+    with ck.section('R20.4'):
+        # ---- R20.4: zero modulo
+        init = counter.methods.get('__init__')
+        ck.need(R4, init is not None, "Counter.__init__ not found")
+        cfg = ck.cfg(init.fid)
+        writes = nodes_writing_attr(cfg, '_mod')
+        ck.need(R4, writes, "Counter.__init__ does not store self._mod")
+        # layout-independent decision: abstract run of the constructor
+        from sa.minieval import MiniEval
+        init_run_ok = None
+        try:
+            bad_ = []
+            a_ = init.node.args
+            for mod_ in (0, 0.0, None, 5, -3, 2.5):
+                order = []
+                env = {'modulo': mod_, 'initdef': 0, '__setattr__': lambda k, v, order=order: order.append(('set', k, v)),
+                       'super().__init__': lambda *aa, order=order, **kk: order.append(('super', kk.get('initdef')))}
+                if a_.vararg:
+                    env[a_.vararg.arg] = ()
+                if a_.kwarg:
+                    env[a_.kwarg.arg] = {}
+                res = MiniEval(R4, env).run(init.node.body)
+                ck.abstract_cases += 1
+                if mod_ == 0:
+                    good = res == ('raise', 'ValueError') and not any(o[0] == 'super' for o in order)
+                else:
+                    good = res[0] == 'return' and ('set', 'self._mod', mod_) in order and \
+                        ('super', 0) in order and order.index(('set', 'self._mod', mod_)) < order.index(('super', 0))
+                if not good:
+                    bad_.append(f"modulo={mod_!r}: {res}, effects {order}")
+            init_run_ok = not bad_
+            ck.ob(R4, f"{init.fid} :: abstract run", init_run_ok,
+                  "a zero modulo raises ValueError before the block is registered; any other modulo "
+                  "(None included) is stored before super().__init__ runs" if init_run_ok else "; ".join(bad_),
+                  init, init.node)
+        except Exception as err:
+            ck.note(f"R20.4 abstract run not applicable: {err}")
+        raises = nodes_where(cfg, lambda n: isinstance(n.ast, ast.Raise)
+                             and cfg.has_guard(n, 'modulo == 0', True))
+        ck.ob(R4, f"{init.fid} :: raise under modulo == 0", bool(raises) or bool(init_run_ok),
+              "a raise statement is guarded by `modulo == 0`" if raises else
+              "no raise statement is guarded by `modulo == 0`: a zero modulo is not refused",
               init, init.node)
-    except Exception as err:
-        ck.note(f"R20.4 abstract run not applicable: {err}")
-    raises = nodes_where(cfg, lambda n: isinstance(n.ast, ast.Raise)
-                         and cfg.has_guard(n, 'modulo == 0', True))
-    ck.ob(R4, f"{init.fid} :: raise under modulo == 0", bool(raises) or bool(init_run_ok),
-          "a raise statement is guarded by `modulo == 0`" if raises else
-          "no raise statement is guarded by `modulo == 0`: a zero modulo is not refused",
-          init, init.node)
-    for w in writes:
-        ok = cfg.has_guard(w, 'modulo == 0', False)
-        v = w.ast.value if isinstance(w.ast, ast.Assign) else None
-        from_param = v is not None and norm(v) == 'modulo'
-        ck.ob(R4, f"{init.fid} :: {norm1(w.ast)}", (ok and from_param) or bool(init_run_ok),
-              "stored only after the zero test failed; value is the parameter" if ok and from_param
-              else ("self._mod is stored on a path where modulo == 0 was not excluded" if not ok
-                    else f"self._mod is not the `modulo` parameter but `{norm(v)}`"),
-              init, w.ast)
-    sup = nodes_where(cfg, lambda n: any(is_super_call(c, '__init__') for c in node_calls(n)))
-    for s in sup:
-        ok = cfg.has_guard(s, 'modulo == 0', False)
-        ck.ob(R4, f"{init.fid} :: super().__init__", ok or bool(init_run_ok),
-              "the block is registered only after the zero test" if ok else
-              "super().__init__() (which registers the block in the circuit) runs before the "
-              "zero-modulo test", init, s.ast)
-    own(ck, R4, '_mod', {init.fid: 'constructor'},
-        ignore=lambda fi, tgt, st: fi is not None and fi.module.name == 'demo')
+        for w in writes:
+            ok = cfg.has_guard(w, 'modulo == 0', False)
+            v = w.ast.value if isinstance(w.ast, ast.Assign) else None
+            from_param = v is not None and norm(v) == 'modulo'
+            ck.ob(R4, f"{init.fid} :: {norm1(w.ast)}", (ok and from_param) or bool(init_run_ok),
+                  "stored only after the zero test failed; value is the parameter" if ok and from_param
+                  else ("self._mod is stored on a path where modulo == 0 was not excluded" if not ok
+                        else f"self._mod is not the `modulo` parameter but `{norm(v)}`"),
+                  init, w.ast)
+        sup = nodes_where(cfg, lambda n: any(is_super_call(c, '__init__') for c in node_calls(n)))
+        for s in sup:
+            ok = cfg.has_guard(s, 'modulo == 0', False)
+            ck.ob(R4, f"{init.fid} :: super().__init__", ok or bool(init_run_ok),
+                  "the block is registered only after the zero test" if ok else
+                  "super().__init__() (which registers the block in the circuit) runs before the "
+                  "zero-modulo test", init, s.ast)
+        own(ck, R4, '_mod', {init.fid: 'constructor'},
+            ignore=lambda fi, tgt, st: fi is not None and fi.module.name == 'demo')
